@@ -60,9 +60,10 @@ impl NdarrayValue {
                 // For vector values, we need to handle the extra dimensions
                 if indices.len() == 2 {
                     // Simple case: just set the slice
-                    let mut view = arr.slice_mut(ndarray::s![indices[0], indices[1], ..]);
-                    for (i, val) in v.iter().enumerate() {
-                        view[i] = *val;
+                    let mut chain_view = arr.index_axis_mut(ndarray::Axis(0), indices[0]);
+                    let mut view = chain_view.index_axis_mut(ndarray::Axis(0), indices[1]);
+                    for (dest, val) in view.iter_mut().zip(v.iter()) {
+                        *dest = *val;
                     }
                 } else {
                     return Err(anyhow::anyhow!(
@@ -72,9 +73,10 @@ impl NdarrayValue {
             }
             (NdarrayValue::F32(arr), Value::F32(v)) => {
                 if indices.len() == 2 {
-                    let mut view = arr.slice_mut(ndarray::s![indices[0], indices[1], ..]);
-                    for (i, val) in v.iter().enumerate() {
-                        view[i] = *val;
+                    let mut chain_view = arr.index_axis_mut(ndarray::Axis(0), indices[0]);
+                    let mut view = chain_view.index_axis_mut(ndarray::Axis(0), indices[1]);
+                    for (dest, val) in view.iter_mut().zip(v.iter()) {
+                        *dest = *val;
                     }
                 } else {
                     return Err(anyhow::anyhow!(
@@ -84,9 +86,10 @@ impl NdarrayValue {
             }
             (NdarrayValue::Bool(arr), Value::Bool(v)) => {
                 if indices.len() == 2 {
-                    let mut view = arr.slice_mut(ndarray::s![indices[0], indices[1], ..]);
-                    for (i, val) in v.iter().enumerate() {
-                        view[i] = *val;
+                    let mut chain_view = arr.index_axis_mut(ndarray::Axis(0), indices[0]);
+                    let mut view = chain_view.index_axis_mut(ndarray::Axis(0), indices[1]);
+                    for (dest, val) in view.iter_mut().zip(v.iter()) {
+                        *dest = *val;
                     }
                 } else {
                     return Err(anyhow::anyhow!(
@@ -96,9 +99,10 @@ impl NdarrayValue {
             }
             (NdarrayValue::I64(arr), Value::I64(v)) => {
                 if indices.len() == 2 {
-                    let mut view = arr.slice_mut(ndarray::s![indices[0], indices[1], ..]);
-                    for (i, val) in v.iter().enumerate() {
-                        view[i] = *val;
+                    let mut chain_view = arr.index_axis_mut(ndarray::Axis(0), indices[0]);
+                    let mut view = chain_view.index_axis_mut(ndarray::Axis(0), indices[1]);
+                    for (dest, val) in view.iter_mut().zip(v.iter()) {
+                        *dest = *val;
                     }
                 } else {
                     return Err(anyhow::anyhow!(
@@ -108,9 +112,26 @@ impl NdarrayValue {
             }
             (NdarrayValue::U64(arr), Value::U64(v)) => {
                 if indices.len() == 2 {
-                    let mut view = arr.slice_mut(ndarray::s![indices[0], indices[1], ..]);
-                    for (i, val) in v.iter().enumerate() {
-                        view[i] = *val;
+                    let mut chain_view = arr.index_axis_mut(ndarray::Axis(0), indices[0]);
+                    let mut view = chain_view.index_axis_mut(ndarray::Axis(0), indices[1]);
+                    for (dest, val) in view.iter_mut().zip(v.iter()) {
+                        *dest = *val;
+                    }
+                } else {
+                    return Err(anyhow::anyhow!(
+                        "Vector assignment with complex indices not implemented"
+                    ));
+                }
+            }
+            (NdarrayValue::String(arr), Value::ScalarString(v)) => {
+                arr[IxDyn(indices)] = v;
+            }
+            (NdarrayValue::String(arr), Value::Strings(v)) => {
+                if indices.len() == 2 {
+                    let mut chain_view = arr.index_axis_mut(ndarray::Axis(0), indices[0]);
+                    let mut view = chain_view.index_axis_mut(ndarray::Axis(0), indices[1]);
+                    for (dest, val) in view.iter_mut().zip(v.into_iter()) {
+                        *dest = val;
                     }
                 } else {
                     return Err(anyhow::anyhow!(
@@ -250,9 +271,9 @@ impl StorageConfig for NdarrayConfig {
         }
 
         for ((name, extra_dims), (name2, item_type)) in settings
-            .stat_dims_all(math)
+            .data_dims_all(math)
             .into_iter()
-            .zip(settings.stat_types(math).into_iter())
+            .zip(settings.data_types(math).into_iter())
         {
             assert!(name == name2);
             if ["draw", "chain"].contains(&name.as_str()) {
